@@ -143,7 +143,11 @@ package server
 //@   ensures conf.Timers.State.KeepaliveInterval == (conf.Timers.State.NegotiatedHoldTime < conf.Timers.Config.HoldTime ? conf.Timers.State.NegotiatedHoldTime / 3 : conf.Timers.Config.KeepaliveInterval)
 //@ func (*fsm).stateChange
 //@   tag C08 C12 C07
-//@   claims at-call at-return
+//@   claims at-call at-return step
+// "kept ... until the per-family long-lived timer expires": that a family's long-lived timer has run out is a fact about
+// ONE loss - with the OPEN of a new session every family starts over, or the first timer to expire in a later cycle
+// finds "all expired" and cancels the timers of the other families
+//@   loop 0 step !conf.AfiSafis[i].LongLivedGracefulRestart.State.PeerRestartTimerExpired
 //@   at-call fsm.gConf.IsConfederationMember( requires conf.Timers.State.NegotiatedHoldTime == (float64(body.HoldTime) > conf.Timers.Config.HoldTime ? conf.Timers.Config.HoldTime : float64(body.HoldTime))
 //@   at-call fsm.gConf.IsConfederationMember( requires conf.Timers.State.KeepaliveInterval == (conf.Timers.State.NegotiatedHoldTime < conf.Timers.Config.HoldTime ? conf.Timers.State.NegotiatedHoldTime / 3 : conf.Timers.Config.KeepaliveInterval)
 // ... and the hold timer of OpenConfirm is already the negotiated one (RFC 4271 8.2.2, event 19: on receipt of the
